@@ -157,9 +157,31 @@ def job_rank(res, n, typ, first):
         if typ == 2: spec = z3.ToReal(z3.Sum([z3.If((Zx[i] - Zx[k]) * (Zy[i] - Zy[k]) > 0, 1, -1) for i in range(n) for k in range(i + 1, n)])) / npairs
         else: spec = 1 - z3.ToReal(6 * z3.Sum([(rk(Zx, i) - rk(Zy, i)) * (rk(Zx, i) - rk(Zy, i)) for i in range(n)])) / (n * (n * n - 1))
         tol = z3.RealVal(Fraction(1, 10 ** 12))
-        sol = z3.Solver(); sol.add(*p.m.pc); sol.add(z3.Or(r - spec > tol, spec - r > tol)); c = timed_check(sol, res)
-        if c == z3.unknown:
-            sol.set('timeout', 300000); c = sol.check()
+        # A path of tie-free data fixes both orderings (every pair is decided by the comparisons made, directly or by transitivity): establish that with cheap linear queries
+        # (pc and "pair ordered the other way" unsat, per pair), then the definition is a constant on the path and the claim is linear.  Falls back to the general query otherwise.
+        c = None; rr0, mdl0 = p.m.check_model(z3.BoolVal(True))
+        if rr0 == z3.sat:
+            try:
+                xv0 = [Fraction(z3_to_float(mdl0.get(f'x{i}'))) for i in range(n)]; yv0 = [Fraction(z3_to_float(mdl0.get(f'y{i}'))) for i in range(n)]
+            except Exception: xv0 = yv0 = None
+            if xv0 and len(set(xv0)) == n and len(set(yv0)) == n:
+                q0 = z3.SolverFor('QF_LRA'); q0.set('timeout', 120000); q0.add(*[a for a in p.m.pc if True]); fixed = True
+                try:
+                    for Zv, vv in ((Zx, xv0), (Zy, yv0)):
+                        for i in range(n):
+                            for k in range(i + 1, n):
+                                q0.push(); q0.add((Zv[i] > Zv[k]) if vv[i] < vv[k] else (Zv[i] < Zv[k])); cc = q0.check(); res.queries += 1; q0.pop()
+                                if cc != z3.unsat: fixed = False; break
+                            if not fixed: break
+                        if not fixed: break
+                except z3.Z3Exception: fixed = False      # the path condition is not purely linear
+                if fixed:
+                    exp0 = py_kendall(xv0, yv0) if typ == 2 else py_spearman(xv0, yv0)
+                    sol = z3.Solver(); sol.add(*p.m.pc); sol.add(z3.Or(r - z3.RealVal(exp0) > tol, z3.RealVal(exp0) - r > tol)); c = timed_check(sol, res)
+        if c is None or c == z3.unknown:
+            sol = z3.Solver(); sol.add(*p.m.pc); sol.add(z3.Or(r - spec > tol, spec - r > tol)); c = timed_check(sol, res)
+            if c == z3.unknown:
+                sol.set('timeout', 600000); c = sol.check()
         if c == z3.unsat: res.ob(True, 'LRA/NIA', f'{["", "spearman", "kendall"][typ]} n={n} path: value equals the O(n^2) definition for every pair of orderings on the path')
         elif c == z3.unknown: res.inc(f'rank correlation n={n}: query undecided')
         else:
